@@ -291,4 +291,29 @@ theorem swo_congr {lt₁ lt₂ : Ent → Ent → Bool} {l : List Ent}
     rw [h a ha c hc, h c hc a ha]
     exact n a ha b hb c hc h1 h2 h3 h4
 
+/-! ### Exact characterisation for the pinned comparator -/
+
+theorem lessOld_eq_spec_on {l : List Ent} (hc : Compatible l) :
+    ∀ a ∈ l, ∀ b ∈ l, lessOld a b = specLess a b := by
+  intro a ha b hb
+  have h := hc a ha b hb
+  unfold lessOld specLess
+  by_cases h1 : a.off < b.off <;> by_cases h2 : a.off = b.off <;> by_cases h3 : a.len > b.len <;>
+    simp [h1, h2, h3] <;> omega
+
+/-- The pinned comparator is a strict weak order on `l` exactly when `l` is compatible. -/
+theorem lessOld_swo_iff (l : List Ent) : StrictWeakOrderOn lessOld l ↔ Compatible l := by
+  constructor
+  · intro ⟨hi, ht, _⟩ a ha b hb hlt
+    -- otherwise a and b are each "less" than the other, and transitivity gives a < a
+    apply Classical.byContradiction
+    intro hlen
+    have h1 : lessOld a b = true := by unfold lessOld; simp; omega
+    have h2 : lessOld b a = true := by unfold lessOld; simp; omega
+    have h3 := ht a ha b hb a ha h1 h2
+    rw [hi a ha] at h3
+    cases h3
+  · intro hc
+    exact swo_congr (lessOld_eq_spec_on hc) (specLess_swo l)
+
 end TdModel.C36
